@@ -55,7 +55,7 @@ deriving Repr, DecidableEq
 /-- Token views of the rule's source templates, with their layer. -/
 def Rule.layers (r : Rule) : List (Layer × List Tok) :=
   let ms := r.routeMarkers
-  [(Layer.path, tokens (pctEncode Rio.Consts.encSetRuleRsUrlEncodeSet r.path) ms)] ++
+  [(Layer.path, tokens (pctEncode Rio.Consts.markerPathEncodeSet r.path) ms)] ++
   (match r.host with
     | some h => [(Layer.host, tokens h ms)]
     | none => []) ++
@@ -80,6 +80,8 @@ def Rule.simpleFor (cf : CaseFns) (r : Rule) (cfg : Config) (inst : List (Str ×
   let ls := r.layers
   let used := ls.flatMap fun l => dedupStr (groupNames l.2)
   r.markers.all (fun m => identName m.name) && nodupStr (r.markers.map (·.name)) && nodupStr used &&
+  -- a named group inside a marker expression adds a capture of its own: outside the instantiation oracle
+  r.markers.all (fun m => !containsSub "(?P<".toList m.regex && !containsSub "(?<".toList m.regex) &&
   used.all (fun n => (inst.lookup n).isSome) &&
   ls.all fun l => delimitedFor (fun n => normValue cf cfg l.1 ((inst.lookup n).getD [])) l.2
 
